@@ -13,23 +13,34 @@
 From Coq Require Import ZArith NArith List Bool Lia Arith ZifyBool ZifyN ZifyNat.
 Import ListNotations.
 Require Import SR.Base.Res SR.Spec.Dde SR.Model.Structure SR.Proofs.StructureP.
+(* The definitions of this development that occur in theorem statements (Props/) live in Spec/RenumberWf.v (audit item G1).
+   The abbreviations keep the qualified names RenumberP.name of other files resolving; they are parsing-only aliases. *)
+Require Export SR.Spec.RenumberWf.
+Notation npop := SR.Spec.RenumberWf.npop (only parsing).
+Notation push := SR.Spec.RenumberWf.push (only parsing).
+Notation same_pops := SR.Spec.RenumberWf.same_pops (only parsing).
+Notation keeps_nesting := SR.Spec.RenumberWf.keeps_nesting (only parsing).
+Notation chain_sorted := SR.Spec.RenumberWf.chain_sorted (only parsing).
+Notation erase_e := SR.Spec.RenumberWf.erase_e (only parsing).
+Notation erase_d := SR.Spec.RenumberWf.erase_d (only parsing).
+Notation erase_t := SR.Spec.RenumberWf.erase_t (only parsing).
+Notation same_shape := SR.Spec.RenumberWf.same_shape (only parsing).
+Notation relevelled := SR.Spec.RenumberWf.relevelled (only parsing).
+Notation transparent := SR.Spec.RenumberWf.transparent (only parsing).
+Notation ins_skipped := SR.Spec.RenumberWf.ins_skipped (only parsing).
+Notation ins_s_nil := SR.Spec.RenumberWf.ins_s_nil (only parsing).
+Notation ins_s_keep := SR.Spec.RenumberWf.ins_s_keep (only parsing).
+Notation ins_s_add := SR.Spec.RenumberWf.ins_s_add (only parsing).
+Notation group_renumbering := SR.Spec.RenumberWf.group_renumbering (only parsing).
+Notation lvl_of_num := SR.Spec.RenumberWf.lvl_of_num (only parsing).
+Notation set_level := SR.Spec.RenumberWf.set_level (only parsing).
+Notation relevel := SR.Spec.RenumberWf.relevel (only parsing).
+Notation in_range := SR.Spec.RenumberWf.in_range (only parsing).
+Notation entry_in := SR.Spec.RenumberWf.entry_in (only parsing).
 Open Scope nat_scope.
 Ltac Zify.zify_post_hook ::= Z.to_euclidean_division_equations.
 
 (* ================================================================= A. the open chain and the pop profile *)
-
-(* st = level numbers of the entries still open, innermost first.
-   npop x st = how many of them an arriving entry of level x closes: the leading ones whose level
-   is not below x.  (The open chain is strictly increasing inward, so this number fixes the order
-   relation between x and EVERY open entry: see npop_compare.) *)
-Fixpoint npop (x : N) (st : list N) : nat :=
-  match st with
-  | [] => 0
-  | y :: r => if (y <? x)%N then 0 else S (npop x r)
-  end.
-
-(* the chain after the arrival of x *)
-Definition push (x : N) (st : list N) : list N := x :: skipn (npop x st) st.
 
 (* the pop profile of the entries K arriving at the open chain st *)
 Fixpoint pops (st : list N) (K : list N) : list nat :=
@@ -37,17 +48,6 @@ Fixpoint pops (st : list N) (K : list N) : list nat :=
   | [] => []
   | x :: r => npop x st :: pops (push x st) r
   end.
-
-(* THE boolean condition: the two level sequences have the same length and every entry closes the same
-   number of open entries in both, i.e. stands in the same order relation to the entries that are open
-   when it arrives. *)
-Fixpoint same_pops (st st' : list N) (K K' : list N) : bool :=
-  match K, K' with
-  | [], [] => true
-  | x :: r, x' :: r' => Nat.eqb (npop x st) (npop x' st') && same_pops (push x st) (push x' st') r r'
-  | _, _ => false
-  end.
-Definition keeps_nesting (K K' : list N) : bool := same_pops [] [] K K'.
 
 Lemma same_pops_iff : forall K K' st st', same_pops st st' K K' = true <-> pops st K = pops st' K'.
 Proof.
@@ -189,13 +189,6 @@ Qed.
 
 (* ----------------------------------------------------------------- the order relation with every open entry *)
 
-(* a chain that is strictly increasing inward (head = innermost = largest) *)
-Fixpoint chain_sorted (st : list N) : Prop :=
-  match st with
-  | [] => True
-  | y :: r => match r with [] => True | z :: _ => (z < y)%N end /\ chain_sorted r
-  end.
-
 Lemma chain_sorted_skipn : forall n st, chain_sorted st -> chain_sorted (skipn n st).
 Proof.
   induction n as [|n IH]; intros st H; [exact H|]. destruct st as [|y r]; [exact H|].
@@ -282,24 +275,7 @@ Qed.
 
 (* ================================================================= B. two runs of structure() in lock step *)
 
-(* "up to the level field": the level of every entry is overwritten with one constant *)
-Definition erase_e (e : entry) : entry :=
-  {| elv := (48, 48)%N; ename := ename e; efill := efill e; eredef := eredef e;
-     epic := epic e; eocc := eocc e; etext := etext e |}.
-Definition erase_d (d : dde) : dde := {| de := erase_e (de d); du := du d |}.
-Fixpoint erase_t (t : tree) : tree :=
-  match t with TNode d b kids => TNode (erase_d d) b (map erase_t kids) end.
 Definition erase_f (f : frame) : frame := {| fd := erase_d (fd f); fkids := map erase_t (fkids f) |}.
-
-Definition same_shape (f f' : list tree) : Prop := map erase_t f = map erase_t f'.
-
-(* two entries that differ in the level number only: same name, FILLER word, REDEFINES target,
-   picture / occurs flags and source text; both kept or both skipped; both or neither level 01
-   (level 01 restarts the FILLER numbering, so it is part of what the names depend on) *)
-Definition relevelled (e e' : entry) : Prop :=
-  erase_e e = erase_e e'
-  /\ kept_level (lvl_num (elv e)) = kept_level (lvl_num (elv e'))
-  /\ (lvl_num (elv e) =? 1)%N = (lvl_num (elv e') =? 1)%N.
 
 Lemma relevelled_fields : forall e e', erase_e e = erase_e e' <->
   ename e = ename e' /\ efill e = efill e' /\ eredef e = eredef e' /\ epic e = epic e' /\ eocc e = eocc e'
@@ -639,17 +615,6 @@ Qed.
 
 (* ================================================================= C. entries that never become nodes *)
 
-(* a named entry of level 66, 77 or 88 (a DDE object is created for it, so an unnamed one would
-   take a FILLER number: see the boundary witness in Props/C12c.v) *)
-Definition transparent (e : entry) : Prop :=
-  two_digits (elv e) = true /\ kept_level (lvl_num (elv e)) = false /\ is_filler e = false.
-
-(* l' = l with transparent entries inserted anywhere *)
-Inductive ins_skipped : list entry -> list entry -> Prop :=
-| ins_s_nil : ins_skipped [] []
-| ins_s_keep : forall e l l', ins_skipped l l' -> ins_skipped (e :: l) (e :: l')
-| ins_s_add : forall e l l', transparent e -> ins_skipped l l' -> ins_skipped l (e :: l').
-
 Lemma transparent_mk : forall e c r, transparent e ->
   exists d, mk_ddes c (e :: r) = d :: mk_ddes c r /\ skipped d = true.
 Proof.
@@ -809,16 +774,6 @@ Section Group.
   Qed.
 End Group.
 
-(* the hypotheses of section Group as one boolean *)
-Definition group_renumbering (K K' : list N) : bool :=
-  Nat.eqb (length K) (length K') &&
-  forallb (fun i =>
-    forallb (fun j => negb (opt_nat_eqb (spec_parent K i) (spec_parent K j))
-                      || Bool.eqb (nth i K 0 <? nth j K 0)%N (nth i K' 0 <? nth j K' 0)%N)
-            (seq 0 (length K))
-    && match spec_parent K i with Some p => (nth p K' 0 <? nth i K' 0)%N | None => true end)
-  (seq 0 (length K)).
-
 Lemma opt_nat_eqb_refl : forall a, opt_nat_eqb a a = true.
 Proof. intros [a|]; cbn [opt_nat_eqb]; [apply Nat.eqb_refl | reflexivity]. Qed.
 
@@ -853,25 +808,13 @@ Qed.
 
 (* ================================================================= E. a monotone map applied to the entries of a copybook *)
 
-Definition lvl_of_num (n : N) : lvl := (48 + n / 10, 48 + n mod 10)%N.
-
 Lemma lvl_of_num_ok : forall n, (n < 100)%N -> two_digits (lvl_of_num n) = true /\ lvl_num (lvl_of_num n) = n.
 Proof.
   intros n H. unfold two_digits, is_digit, lvl_num, lvl_of_num. cbn [fst snd].
   split; lia.
 Qed.
 
-Definition set_level (v : lvl) (e : entry) : entry :=
-  {| elv := v; ename := ename e; efill := efill e; eredef := eredef e;
-     epic := epic e; eocc := eocc e; etext := etext e |}.
-
-(* g applied to the level number of every entry that is not a 66/77/88 entry *)
-Definition relevel (g : N -> N) (e : entry) : entry :=
-  if kept_level (lvl_num (elv e)) then set_level (lvl_of_num (g (lvl_num (elv e)))) e else e.
-
 Definition on_kept (g : N -> N) (n : N) : N := if kept_level n then g n else n.
-
-Definition in_range (n : N) : Prop := (1 <= n <= 49)%N.
 
 Definition kept_levels (L : list N) : list N :=
   match L with [] => [] | x :: r => x :: filter kept_level r end.
@@ -918,9 +861,7 @@ Section Monotone.
   Hypothesis g_mono : forall a b, used a -> used b -> (a < b)%N -> (g a < g b)%N.
   Hypothesis g_range : forall a, used a -> in_range (g a).
   Hypothesis g_one : forall a, used a -> (g a =? 1)%N = (a =? 1)%N.
-
-  Definition entry_in (e : entry) : Prop :=
-    two_digits (elv e) = true /\ (kept_level (lvl_num (elv e)) = true -> used (lvl_num (elv e))).
+  Notation entry_in := (entry_in used).
 
   Lemma relevel_num : forall e, entry_in e ->
     two_digits (elv (relevel g e)) = true /\ lvl_num (elv (relevel g e)) = on_kept g (lvl_num (elv e)).
